@@ -152,6 +152,29 @@ pub fn c03(cx: &mut Ctx) {
         cx.op("canproceed");
         cx.op("proceed");
     }
+    // the single-call API: body data offered to the very call that completes the head, into outputs around one
+    // full chunk plus the head; then the rest of the body and the end
+    for cap in [64usize, 1024, 10248, 10250, 10280, 10288, 10320, 10400, 20600] {
+        for input in [5usize, 10240, 10300] {
+            cx.case("callhead");
+            if cx.rec.new_call("body", "POST HTTP/1.1 http://a.test/p 1 x-trace 616263") != "ok" { continue; }
+            let data = pat(9, input);
+            let mut off = 0;
+            for _ in 0..60 {
+                let res = cx.op(&format!("cbwrite {} {}", hx(&data[off..]), cap));
+                let p: Vec<&str> = res.split(' ').collect();
+                if p[0] != "bytes" { break; }
+                let u: usize = p[1].parse().unwrap_or(0);
+                off += u;
+                if off >= data.len() { break; }
+                if u == 0 && p[2] == "-" { break; }
+            }
+            cx.op("cfinished");
+            cx.op("cbwrite - 64");
+            cx.op("cfinished");
+            cx.op("cinto");
+        }
+    }
 }
 
 pub fn c04(cx: &mut Ctx) {
@@ -613,6 +636,28 @@ pub fn c19(cx: &mut Ctx) {
         let m: usize = res.split(' ').nth(1).unwrap_or("0").parse().unwrap_or(0);
         for input in [1usize, m.saturating_sub(1).max(1), m.max(1), m + 1, cap + 1, 2 * cap + 7] {
             bwrite(cx, input, input, cap);
+        }
+    }
+    // the single-call API: body writes into the smallest outputs, and with head and body sharing one buffer
+    for cap in [6usize, 7, 8, 9, 12, 21, 64] {
+        for input in [1usize, 3, 16, 300] {
+            cx.case("callsmall");
+            if cx.rec.new_call("body", "POST HTTP/1.1 http://a.test/p 0") != "ok" { continue; }
+            cx.op("cbwrite - 4096");
+            let data = pat(3, input);
+            let mut off = 0;
+            for _ in 0..400 {
+                if off >= data.len() { break; }
+                let res = cx.op(&format!("cbwrite {} {}", hx(&data[off..]), cap));
+                let p: Vec<&str> = res.split(' ').collect();
+                if p[0] != "bytes" { break; }
+                let u: usize = p[1].parse().unwrap_or(0);
+                if u == 0 { break; }
+                off += u;
+            }
+            cx.meta(&format!("loop total={} cap={} done={} calls=0", input, cap, off));
+            cx.op("cbwrite - 8");
+            cx.op("cfinished");
         }
     }
 }
